@@ -7,6 +7,7 @@ package main
 
 import (
 	"crypto/sha256"
+	"encoding/json"
 	"flag"
 	"fmt"
 	"os"
@@ -58,6 +59,7 @@ type cfgT struct {
 	events   []evDef // the whole alphabet
 	evs      []int   // the slice of it being explored (indices into events)
 	depth    int
+	noFaults bool // no crash / write-error variants (the committee-of-7 configuration)
 }
 
 // slices of the alphabet (every sequence over a slice is a sequence over the whole alphabet):
@@ -82,7 +84,21 @@ func sliceOf(events []evDef, which string) []int {
 	return out
 }
 
-func leader(h int) spectypes.OperatorID { return spectypes.OperatorID(h%4 + 1) }
+// committee size of this process (4; 7 in the worker that explores the larger committee)
+var committee = 4
+
+// n7Slice: certificates of heights 1 and 2 (three signer-set sizes, two rounds) and restart.
+func n7Slice(events []evDef) []int {
+	var out []int
+	for i, e := range events {
+		if e.kind == kRestart || (e.kind == kCert && e.h <= 2) {
+			out = append(out, i)
+		}
+	}
+	return out
+}
+
+func leader(h int) spectypes.OperatorID { return spectypes.OperatorID(h%committee + 1) }
 
 func buildEvents(rounds []int) []evDef {
 	id := runh.Identifier(role)
@@ -92,6 +108,12 @@ func buildEvents(rounds []int) []evDef {
 		out = append(out, evDef{name: fmt.Sprintf("startDuty(%d)", h), kind: kStart, h: h})
 	}
 	sets := [][]spectypes.OperatorID{{1, 2, 3}, {1, 2, 4}, {1, 2, 3, 4}}
+	others := []spectypes.OperatorID{2, 3, 4}
+	if committee == 7 {
+		// three certificate sizes: quorum (5), 6 and 7 signers
+		sets = [][]spectypes.OperatorID{{1, 2, 3, 4, 5}, {1, 2, 3, 4, 5, 6}, {1, 2, 3, 4, 5, 6, 7}}
+		others = []spectypes.OperatorID{2, 3, 4, 5, 6}
+	}
 	certs := func(rd int) {
 		for h := 1; h <= 3; h++ {
 			for _, s := range sets {
@@ -104,11 +126,11 @@ func buildEvents(rounds []int) []evDef {
 	for h := 1; h <= 3; h++ {
 		e := evDef{name: fmt.Sprintf("proposal+prepares(h%d)", h), kind: kPrepared, h: h}
 		e.wires = append(e.wires, runh.WireQBFT(id, runh.QBFTMsg(id[:], specqbft.ProposalMsgType, specqbft.Height(h), 1, val(h), true, leader(h))))
-		for _, i := range []spectypes.OperatorID{2, 3, 4} {
+		for _, i := range others {
 			e.wires = append(e.wires, runh.WireQBFT(id, runh.QBFTMsg(id[:], specqbft.PrepareMsgType, specqbft.Height(h), 1, val(h), false, i)))
 		}
 		out = append(out, e)
-		for _, i := range []spectypes.OperatorID{2, 3, 4} {
+		for _, i := range others {
 			m := runh.QBFTMsg(id[:], specqbft.CommitMsgType, specqbft.Height(h), 1, val(h), false, i)
 			out = append(out, evDef{name: fmt.Sprintf("commit(h%d,op%d)", h, i), kind: kCommit, h: h, wires: []*runh.Wire{runh.WireQBFT(id, m)}})
 		}
@@ -446,7 +468,7 @@ func (s *sys) Apply(st runh.Step) (string, []runh.Viol, int) {
 		s.best[h] = n // what is stored now (a reported decrease is reported once)
 	}
 	variants := 0
-	if st.V == 0 && e.kind != kRestart {
+	if st.V == 0 && e.kind != kRestart && !s.c.noFaults {
 		variants = 3 * writes
 	}
 	return out, viols, variants
@@ -494,6 +516,13 @@ func (c *cfgT) config() *runh.Config {
 	}
 }
 
+type n7Out struct {
+	States, Transitions, Replays int
+	Complete                     bool
+	Outcomes                     map[string]int
+	Bound                        string
+}
+
 func main() {
 	prof := flag.String("cpuprofile", "", "write a CPU profile (diagnostics)")
 	r := ev.Start("C15", "model_checking")
@@ -504,6 +533,21 @@ func main() {
 		go func() { time.Sleep(20 * time.Second); pprof.StopCPUProfile(); f.Close() }()
 	}
 	ssvtypes.SetDefaultDomain(runh.Domain)
+	if _, _, ok := r.IsWorker(); ok {
+		// the worker process explores the committee of 7 (key set chosen by the environment the
+		// parent set): certificates with 5, 6 and 7 signers in two rounds, duty starts, restart
+		committee = 7
+		c := &cfgT{name: "c15-full-n7/certs", fullNode: true, depth: 4, noFaults: true}
+		if r.Thorough() {
+			c.depth = 5
+		}
+		c.events = buildEvents([]int{1, 2})
+		c.evs = n7Slice(c.events)
+		res := runh.Explore(r, c.config())
+		r.Emit(n7Out{States: res.States, Transitions: res.Transitions, Replays: res.Replays, Complete: res.Complete, Outcomes: res.Outcomes,
+			Bound: fmt.Sprintf("%s (committee of 7, full node): events=%d rounds=[1 2] depth<=%d states=%d transitions=%d complete=%v", c.name, len(c.evs), c.depth, res.States, res.Transitions, res.Complete)})
+		r.WorkerDone()
+	}
 	rounds, plan := []int{1}, quickPlan
 	if r.Thorough() {
 		rounds, plan = []int{1, 2}, thoroughPlan
@@ -522,6 +566,20 @@ func main() {
 		v, err := ev.LoadReplay(r.Replay)
 		if err != nil {
 			ev.Fatal("%v", err)
+		}
+		if v.Harness == "c15-full-n7/certs" {
+			os.Setenv("VERIF_RUNH_N", "7")
+			committee = 7
+			c := &cfgT{name: v.Harness, fullNode: true, noFaults: true}
+			c.events = buildEvents([]int{1, 2})
+			c.evs = n7Slice(c.events)
+			fmt.Printf("replay %s on fresh real objects (%s): %s\n", r.Replay, c.name, v.What)
+			if runh.ReplayArtefactByName(c.config(), v) {
+				fmt.Printf("VIOLATION property=C15 replay=%s\n", r.Replay)
+			} else {
+				fmt.Println("not reproduced")
+			}
+			r.Finish(false)
 		}
 		for _, full := range []bool{false, true} {
 			for _, which := range []string{"full", "certs", "local"} {
@@ -563,6 +621,23 @@ func main() {
 			hist[c.name+" "+k] += v
 		}
 	}
+	// committee of 7 in a process of its own (the key set is per process)
+	os.Setenv("VERIF_RUNH_N", "7")
+	r.Spawn(1, nil, func(raw []byte) {
+		var o n7Out
+		if err := json.Unmarshal(raw, &o); err != nil {
+			ev.Fatal("%v", err)
+		}
+		r.Add("states", o.States)
+		r.Add("transitions", o.Transitions)
+		r.Add("replayed_worlds", o.Replays)
+		exhaustive = exhaustive && o.Complete
+		bounds = append(bounds, o.Bound)
+		for k, v := range o.Outcomes {
+			hist["c15-full-n7/certs "+k] += v
+		}
+	})
+	os.Unsetenv("VERIF_RUNH_N")
 	var names []string
 	for _, e := range cfgs[0].events {
 		names = append(names, e.name)
